@@ -115,6 +115,8 @@ fn pass0_internal(
     macroses: &HashMap<String, Vec<(CodePoint, String)>>,
 ) -> Result<(), Error> {
     for (line, item) in segment.items.iter() {
+        #[cfg(feature = "verif-hooks")]
+        crate::verif_hooks::point("pass0.item");
         match item {
             Item::Instruction(name, ops) => match name {
                 Operation::Custom(macro_name) => {
